@@ -49,6 +49,7 @@ def run_one(prop, tier, root, replay=None, write_ev=True, quiet=False, selftest_
     t0 = time.time()
     try:
         repo = Repo(root)
+        type(L).REPO_FUNC_NAMES = {f.name for f in repo.functions.values()} - {"get", "pop", "items", "keys", "values", "copy", "start", "end", "read", "write", "tell", "seek"}
         repo.closed_world_guard()
         mod.run(repo, L, tier)
         n, d, distinct = L.counts()
